@@ -349,7 +349,14 @@ func generate(f kit.Flags) [][]string {
 	// (3) generated: mutated real scripts, API chains, lambdas, JSON, UDF peers
 	lambdas, programs := baseJSON()
 	for i := 0; i < f.N; i++ {
-		switch i % 8 {
+		switch i % 10 {
+		case 8, 9:
+			// longer random symbol strings (beyond the exhaustive length)
+			var sb strings.Builder
+			for j := 5 + r.Intn(6); j > 0; j-- {
+				sb.WriteString(kit.Pick(r, alphabet))
+			}
+			cases = append(cases, lexLines(sb.String(), "prog", "lambda"))
 		case 0, 1:
 			s := mutate(r, kit.Pick(r, baseScripts))
 			cases = append(cases, lexLines(s, "prog", "fmt", kit.Pick(r, []string{"pipeS", "pipeB"}), kit.Pick(r, []string{"task", "taskB", "tmpl"})))
